@@ -15,6 +15,7 @@ AttrChoicesFull == {
     << [a |-> "spread", m |-> "M1"] >>,
     << [a |-> "const", n |-> "id", v |-> "k1"], [a |-> "spread", m |-> "M2"] >>,
     << [a |-> "class2"] >>,
+    << [a |-> "const", n |-> "href", v |-> "k5"] >>,
     << [a |-> "cond", c |-> "C2", then |-> << [a |-> "boolc", n |-> "hidden"] >>, else |-> << [a |-> "class2"] >>] >>,
     << [a |-> "class", e |-> "K1"], [a |-> "const", n |-> "title", v |-> "k1"] >>,
     << [a |-> "cond", c |-> "C1", then |-> << [a |-> "class", e |-> "K1"] >>, else |-> << >>] >>,
